@@ -116,7 +116,79 @@ def run(tier, seed, lean):
     out['coverage']['evaluations'] += n
     out['coverage']['shared_or_equal_instance_cases'] = n
     out['violations'] += bad
+    n, bad = instances_in_containers()
+    out['coverage']['evaluations'] += n
+    out['coverage']['instances_below_tuples_and_dicts'] = n
+    out['violations'] += bad
     return out
+
+
+CONTAINER_GRAMMARS = [
+    ('start = [Header, Item*] |> `tuple`\nclass Header { name: Word << ":" }\nclass Item { value: /[0-9]+/ }\nWord = /[a-z]+/\nignore /\\s+/\n',
+     ['cfg: 1 22\n333', 'x:', 'cfg: 1\n\n 2']),
+    ('start = (Pair // ",") |> `dict`\nPair = [Word << "=", Value]\nclass Value { digits: /[0-9]+/ }\nWord = /[a-z]+/\nignore /\\s+/\n',
+     ['a = 1,\nbc = 23', 'a=1']),
+    ('start = Statement /? ";"\nStatement = [Command, Location] |> `tuple`\nclass Command { verb: "go" | "stay" }\nclass Location { place: "here" | "there" }\nignore /\\s+/\n',
+     ['go there;\nstay here ;', 'go here']),
+    ('start = Record*\nclass Record { name: Word; fields: "{" >> ((Field /? ",") |> `dict`) << "}" }\nField = [Word << ":", Value]\nclass Value { digits: /[0-9]+/ }\nWord = /[a-z]+/\nignore /\\s+/\n',
+     [' p {x: 1,\n y: 22}\nq {}', 'p{}']),
+    # an instance kept from a lookahead that reaches over line breaks beyond the end of the match
+    ('start = Head\nclass Head { name: Word; peek: Expect(Body) }\nclass Body { first: Word; second: Word }\nWord = /[a-z]+/\nignore /\\s+/\n',
+     ['head\nfoo\nbar', 'head foo\n  bar baz']),
+]
+
+
+def _walk(v, seen=None):
+    seen = set() if seen is None else seen
+    if id(v) in seen:
+        return
+    if isinstance(v, (list, tuple)) and not hasattr(v, '_fields'):
+        seen.add(id(v))
+        for x in v:
+            yield from _walk(x, seen)
+    elif isinstance(v, dict):
+        seen.add(id(v))
+        for x in v.values():
+            yield from _walk(x, seen)
+    elif hasattr(v, '_fields') and hasattr(v, '_metadata'):
+        seen.add(id(v))
+        yield v
+        for f in v._fields:
+            yield from _walk(getattr(v, f), seen)
+
+
+def instances_in_containers():
+    """results whose outermost value, or some value inside, is a tuple or a dict made by inline Python: every instance below is
+    converted, with the line and column of its offsets; also with fullparse=False and from an offset"""
+    import realrun as rr
+    bad = []
+    n = 0
+    for g, texts in CONTAINER_GRAMMARS:
+        m, _ = rr.compile_grammar(g)
+        for text in texts:
+            for pos, full in ((0, True), (0, False), (1, False)):
+                t = ('\n' * pos) + text if pos else text
+                try:
+                    v = m.parse(t, pos, full)
+                except Exception as exc:      # noqa: BLE001
+                    v = getattr(exc, 'partial_result', None)
+                    if v is None:
+                        bad.append({'key': f'containers|{g}|{text}|{pos}', 'kind': 'spec', 'grammar': g, 'input': t, 'sig': 'containers',
+                                    'what': f'parse({t!r}, {pos}, {full}) raised {type(exc).__name__}: {str(exc)[:100]}'})
+                        continue
+                for inst in _walk(v):
+                    n += 1
+                    info = inst._metadata.position_info
+                    ok = hasattr(info, 'start') and pos <= info.start.index <= info.end.index < len(t)
+                    if ok:
+                        for which in (info.start, info.end):
+                            if t[which.index] != '\n' and (which.line, which.column) != corerun._linecol(t, which.index):
+                                ok = False
+                    if not ok:
+                        bad.append({'key': f'containers|{g}|{text}|{pos}|{full}', 'kind': 'spec', 'grammar': g, 'input': t, 'sig': 'containers',
+                                    'what': f'parse({t!r}, {pos}, {full}): instance {inst!r} has position_info {info!r}'})
+                        break
+    return n, bad
 
 
 def shared_and_equal_instances():
